@@ -37,6 +37,17 @@ CLAIMS = {
               "with prophyc's model nodes and the Python runtime statics for every constructed type."),
         design_ref="5/C04", technique="TLC-computed layout vs prophyc model and runtime statics",
         note=WIRE_NOTE),
+    "C06": dict(
+        category="fault_enumeration",
+        text=("spec/WireDec.tla is the reference decoder machine plus an explicit fault model; TLC checks "
+              "DecoderInBounds/RoundTrip/TruncationDetected on it and enumerates, for every enumerated (schema, "
+              "value), every truncation, extension and control-word corruption of the canonical image. Every "
+              "faulted input is decoded by the real Python codec under a watchdog and a tracemalloc budget: the "
+              "outcome must be a return or ProphyError; after a return the message must encode and be a decode "
+              "fixpoint."),
+        design_ref="5/C06", technique="TLC-enumerated fault sequences replayed into the Python decoder",
+        note=WIRE_NOTE + " Value fixpoint is not demanded for unlimited roots whose re-encoding is byte-identical "
+                         "(documented greedy-tail ambiguity)."),
     "C19": dict(
         category="model_checking",
         text=("Mirror is an invariant of spec/Wire.tla over outL/outB/role (checked by TLC); the byte roles of "
